@@ -93,6 +93,9 @@ def check_c16(prog, rep, tier, cfg):
     c16j(prog, rep)
     c16l(prog, rep)
     c16m(prog, rep)
+    # C16.n — what stdin mode prints and what files mode leaves in the file are both `[the BOM that was read] ++ encode(text)`: the
+    # writer adds nothing of its own, so that `unchanged text` means `unchanged bytes` (shared with C17.c)
+    c17c(prog, AliasReport(rep, [("C17.c", r"^bom-and-data-writes|^anchor:write|^encode\(encoding,data\)", "C16.n")]))
     # C16.k — every source file found under a directory is formatted like the same content from stdin: the walk drops an entry only
     # because it is not a formattable file, and the list of files is shortened only by an entry that names a file already in it
     # (shared with C18.f / C18.h)
@@ -1256,6 +1259,9 @@ def check_c18(prog, rep, tier, cfg):
     c18j(prog, rep)
     c18k(prog, rep)
     c18l(prog, rep)
+    # C18.m — a file named in a --files-from list is the file that is formatted: a line of the list is taken as written (shared with C16.l)
+    from engine import AliasReport as _AR18
+    c16l(prog, _AR18(rep, [("C16.l", r".", "C18.m")]))
     # C18.g — "the exit status is non-zero if and only if at least one file failed": every Err reaches the handler, the handler sets a
     # flag (not a count that can wrap), main selects between two constant exit codes — shared with C16.e
     from engine import AliasReport
